@@ -45,6 +45,11 @@ def cases(tier, seed):
     b2 = list(itertools.product(["p", "q"], repeat=5))
     for i in range(0, len(a2), 27):
         out.append({"kind": "feat2", "first": [list(a) for a in a2[i : i + 27]], "second": [list(b) for b in (b2 if tier == "thorough" else b2[:: 3])]})
+    # the levels of the first effect are numeric codes (an integer column, selected levels given as numbers)
+    plain = [a for a in assigns if a[5] is not None]
+    for i in range(0, len(plain), 81):
+        for sel in ("all", "a", "ab"):
+            out.append({"kind": "feat1", "assigns": [list(a) for a in plain[i : i + 81]], "sel": sel, "intcode": True})
     # the second effect over three levels: it can then have fitted dummies *and* a level seen only in the holdout rows while
     # every level of the first effect was seen in fitting (and the other way round)
     b3 = list(itertools.product(["p", "q", "r"], repeat=5))
@@ -122,7 +127,10 @@ def _pool(level, sel):
     return level if level in SEL[sel] else "other"
 
 
-def _check_featurizer(df, effects, sel, feats, center, states, intercept, viol, cov, ctx, labels=None, nf=3, sel2="all"):
+CODE = {"a": 1, "b": 2, "c": 3, "d": 4}
+
+
+def _check_featurizer(df, effects, sel, feats, center, states, intercept, viol, cov, ctx, labels=None, nf=3, sel2="all", intcode=False):
     if labels is not None:
         df = df.copy()
         df.index = labels
@@ -133,6 +141,12 @@ def _check_featurizer(df, effects, sel, feats, center, states, intercept, viol, 
 
     sels = {"fe1": sel, "fe2": sel2}
     fe_arg = {e: ("all" if sels[e] == "all" else list(SEL[sels[e]])) for e in effects}
+    if intcode:
+        df = df.copy()
+        df["fe1"] = df["fe1"].map(CODE).astype(int)
+        if sels["fe1"] != "all":
+            fe_arg["fe1"] = [CODE[x] for x in SEL[sels["fe1"]]]
+        cov["frames_with_numeric_level_codes"] += 1
     f = Featurizer(list(feats), fe_arg if effects else [], states_for_separate_model=list(states))
     try:
         x_all = f.prepare_data(df, center_features=center, scale_features=False, add_intercept=intercept)
@@ -159,9 +173,16 @@ def _check_featurizer(df, effects, sel, feats, center, states, intercept, viol, 
     nontrivial = False
     for e in effects:
         s_e = sels[e]
-        fitlv = [_pool(v, s_e) for v in df[e][:nf]]
-        holdlv = [_pool(v, s_e) for v in df[e][nf : nf + 2]]
-        alllv = [_pool(v, s_e) for v in df[e]]
+        raw = list(df[e])
+        if intcode and e == "fe1":
+            back = {v: k for k, v in CODE.items()}
+            raw = [back[int(v)] for v in raw]
+        fitlv = [_pool(v, s_e) for v in raw[:nf]]
+        holdlv = [_pool(v, s_e) for v in raw[nf : nf + 2]]
+        alllv = [_pool(v, s_e) for v in raw]
+        if intcode and e == "fe1":
+            ren = lambda x: x if x in ("other", None) else str(CODE[x])  # noqa: E731
+            fitlv, holdlv, alllv = [ren(x) for x in fitlv], [ren(x) for x in holdlv], [ren(x) for x in alllv]
         observed = sorted(set(fitlv))
         dcols = [c for c in fc if c.startswith(e + "_")]
         dl = [c[len(e) + 1 :] for c in dcols]
@@ -250,7 +271,7 @@ def _feat_case(case, cov, viol):
             variants = [variants[idx % 5], variants[(idx + 2) % 5]]
         for feats, center, states, intercept in variants:
             ctx = f"fe1={l1} fe2={l2} selected={sel} selected_fe2={sel2} features={feats} centre={center} separate_states={states} intercept={intercept}"
-            nt = _check_featurizer(df, effects, sel, feats, center, states, intercept, viol, cov, ctx, nf=nf, sel2=sel2)
+            nt = _check_featurizer(df, effects, sel, feats, center, states, intercept, viol, cov, ctx + (" numeric_level_codes" if case.get("intcode") else ""), nf=nf, sel2=sel2, intcode=bool(case.get("intcode")))
             if sel2 != "all" and sel != "all":
                 cov["two_effects_with_selected_levels"] += 1
             nontrivial = nontrivial or bool(nt)
@@ -464,4 +485,4 @@ def evaluate(case):
     return {"violations": V, "cov": dict(cov), "outcome": sha([v["sig"] for v in V] + [case["kind"], runs]), "nontrivial": nontrivial, "transitions": max(1, runs)}
 
 
-REQUIRED_COUNTERS = {"featurizer_runs": 5000, "holdout_rows_with_unseen_level": 500, "levels_only_outside_fitting_rows": 500, "fit_rows_decoded": 500, "predict_rows_decoded": 200, "predict_rows_unseen_level": 10, "state_copies_checked": 100, "silent_state_no_copy": 100, "frames_with_duplicate_row_labels": 500, "two_effects_with_selected_levels": 1000, "second_effect_unseen_level_with_fitted_dummies": 500, "frames_with_reporting_unexpected_row": 500}
+REQUIRED_COUNTERS = {"featurizer_runs": 5000, "holdout_rows_with_unseen_level": 500, "levels_only_outside_fitting_rows": 500, "fit_rows_decoded": 500, "predict_rows_decoded": 200, "predict_rows_unseen_level": 10, "state_copies_checked": 100, "silent_state_no_copy": 100, "frames_with_duplicate_row_labels": 500, "two_effects_with_selected_levels": 1000, "second_effect_unseen_level_with_fitted_dummies": 500, "frames_with_reporting_unexpected_row": 500, "frames_with_numeric_level_codes": 500}
